@@ -10,11 +10,14 @@ from vf.shrink import shrink_list
 CFGS = [(3, 360), (5, 600), (8, 960), (R.REAL_PERIOD, R.REAL_TIMESPAN)]
 
 
-def gen_deep(rnd):
-    """parameters of a fabricated deep base just below a REAL retarget boundary (period 10,080)"""
+def gen_deep(rnd, halving=False):
+    """parameters of a fabricated deep base just below a REAL retarget boundary (period 10,080), or -- halving=True --
+    just below a subsidy halving (1,050,000 * k)"""
     k = rnd.choice([17, 17, 20, 100, 400])
     below = rnd.choice([1, 2, 3, 3])
     H = R.REAL_PERIOD * k - below
+    if halving:
+        H = R.HALVING * rnd.choice([1, 1, 2, 3, 29, 30, 31, 63, 64]) - rnd.choice([1, 1, 2, 3])
     tip_ts = 1_700_000_000 + rnd.randrange(0, 10 ** 6)
     f = rnd.choice([0.25, 0.5, 1.0, 1.0, 2.0, 4.0, 16.0])
     texp = rnd.choice([250, 252, 254, 254])
@@ -31,6 +34,10 @@ def gen_case(rnd, cfg, n_blocks, p_mut, cats, deep=None, **opts):
     """label-level generation only (no code under test involved)"""
     from vf.histgen import Gen
     from vf import build
+    opts = dict(opts)
+    mix = opts.pop("dts_mix", None)
+    if mix:
+        opts["dts"] = mix[rnd.randrange(len(mix))]        # None = the default spread (1 s .. 10^6 s)
     if deep is None:
         g0 = R.dec_block(build.GENESIS)[0]
         gen = Gen(rnd, g0.ts, int.from_bytes(g0.target, "big"), cfg[0], cfg[1], **opts)
@@ -161,7 +168,7 @@ class Run:
                     if s_new > s_par + R.subsidy(blk.height) or s_new != sum(v for v, _ in node.utxo.values()):
                         self.fail("inflation", "supply-grew-more-than-subsidy",
                                   "sum(unspent after %s)=%d > sum(parent)=%d + subsidy %d" % (op["label"], s_new, s_par, R.subsidy(blk.height)))
-                    if s_new > sum(R.subsidy(h) for h in range(blk.height + 1)) or s_new > R.MAX_SASHIMI:
+                    if s_new > R.cumulative_subsidy(blk.height) or s_new > R.MAX_SASHIMI:
                         self.fail("inflation", "supply-exceeds-schedule", "sum(unspent)=%d exceeds cumulative subsidy" % s_new)
                 self.cs = cs2
                 if tag:
@@ -208,17 +215,17 @@ def shrink_case(case, focus, sig, budget_s):
     return dict(case, ops=ops)
 
 
-def drive(res, seed_, n_hist, tier, focus, cats, pid, n_blocks=(6, 14), p_mut=0.4, p_deep=0.0, **opts):
+def drive(res, seed_, n_hist, tier, focus, cats, pid, n_blocks=(6, 14), p_mut=0.4, p_deep=0.0, deep_halving=False, **opts):
     """Hypothesis is the generator engine; failures are collected (bucketed by signature) and shrunk afterwards."""
     found = {}
 
     @hypothesis.seed(seed_)
     @settings(max_examples=n_hist, deadline=None, database=None, derandomize=False,
               suppress_health_check=list(hypothesis.HealthCheck), phases=[hypothesis.Phase.generate])
-    @given(st.randoms(use_true_random=False), st.sampled_from(CFGS[:3] + CFGS[:3] + CFGS[3:]), st.integers(*n_blocks))
+    @given(st.randoms(use_true_random=True), st.sampled_from(CFGS[:3] + CFGS[:3] + CFGS[3:]), st.integers(*n_blocks))
     def prop(rnd, cfg, nb):
         if p_deep and rnd.random() < p_deep:
-            case = gen_case(rnd, CFGS[3], min(nb, 8), p_mut, cats, deep=gen_deep(rnd), **opts)
+            case = gen_case(rnd, CFGS[3], min(nb, 8), p_mut, cats, deep=gen_deep(rnd, halving=deep_halving), **opts)
             res.count("deep_histories")
         else:
             case = gen_case(rnd, cfg, nb, p_mut, cats, **opts)
